@@ -9,7 +9,7 @@ BASE = ("Trusted: Lean 4.33 kernel (thorough tier re-checks the module with lean
 CONT = "Modelled, not verified: the observable behaviour of emap/micromap/microstack including their panic points. "
 
 CHECKS = {
- "C01": ("proof", "Theorem Props.C01.safety (per call of every valid history of any length, any N, any capacity, on the reachability invariant Reach = Rel + bind-linkage GI + partner invariant PI): a vertex disappears only in a data() call that reads an unread datum, is linked to the vertex read through bind pairs between current incarnations, holds no unread datum and was an endpoint of a bind. Tie: correspondence on gc/limits/cycle histories with drain epilogue; monC01 recomputes linkage/unread/bound from the raw history and judges the implementation's own trace.",
+ "C01": ("proof", "Theorem Props.C01.safety (per call of every valid history of any length, any N, any capacity, on the reachability invariant Reach = Rel + bind-linkage GI + partner invariant PI): a vertex disappears only in a data() call that reads an unread datum, is linked to the vertex read through bind pairs between current incarnations, holds no unread datum and was an endpoint of a bind. Tie: correspondence on gc/limits/cycle histories with drain epilogue and on histories with merge, clone, slice and save/load in them; monC01 recomputes linkage/unread/bound from the raw history and judges the implementation's own trace.",
          "invariant + refinement proof in Lean 4; differential correspondence; history monitor", "7 C01"),
  "C02": ("proof", "Theorem A (Props.C02.exact_run): for every valid history the model never panics and all outputs equal those of the slot-free reference R; Props.C02.alive_set after every call; group rules and last_read_collects / earlier_reads_keep on R. The implementation's keys() after every call are compared with R's by monC02.",
          "refinement to an abstract reference, proved by induction over histories; differential correspondence", "7 C02"),
